@@ -6,6 +6,7 @@ are runs of the statement-grained LTS (`Model/ParserRunFine.lean`), so every the
 import VaxisModel.Model.ParserRunSched
 import VaxisModel.Model.Parser
 import VaxisModel.Props.C08Fine
+import VaxisModel.Props.C08Spec
 
 namespace VaxisModel.Props.C08Sched
 open VaxisModel.Model.ParserTable VaxisModel.Model.Parser VaxisModel.Model.ParserRun VaxisModel.Model.ParserRunFine
@@ -703,5 +704,24 @@ theorem expire_commutes (T : Table) (f : FSys) (g : Nat) (l : FLabel) (ha : f.ar
           simp only [List.length_append, List.length_cons, List.length_nil]
           omega
         simp [this]
+
+/-! ### every replayed schedule delivers what the Spec prescribes -/
+
+/-- **The oracle clause `esc-key` / items = Spec is a theorem**: for every schedule the harness can
+    replay (any `srun` from the initial state, parser's table) that ends with `run` returned, the
+    items delivered (`error` reports dropped) are `specLabels` of an atomic label schedule — runes
+    through the VT500 reference machine, `escKey` (`C0 1B`, ground) at every up-to-date timer firing
+    and nowhere else, the open control string flushed at end of input, one `EOF{}`
+    (`srun_is_fine_run` ∘ `fine_refines_atomic` ∘ `lifecycle_refines_spec`). -/
+theorem schedule_refines_spec (ls : List SLabel) (f : FSys) (out : List Seq)
+    (h : srun handTable {} ls = some (f, out)) (hd : f.mpc = .done) :
+    ∃ als : List Label,
+      VaxisModel.Lemmas.ParserRefine.noErr out = (VaxisModel.Lemmas.ParserRunSpec.specLabels {} als).2 := by
+  obtain ⟨fl, hfl, _⟩ := srun_is_fine_run handTable ls {} (f, out) h
+  obtain ⟨als, b, oa, g1, g2, g3⟩ :=
+    VaxisModel.Props.C08Fine.fine_refines_atomic handTable VaxisModel.Props.C08Fine.hand_table_timer_ok fl f out hfl
+  have hpend := g3 (Or.inr (Or.inr hd))
+  have hspec := (VaxisModel.Props.C08Spec.lifecycle_refines_spec als _ oa g1).1
+  exact ⟨als, by rw [← hspec, g2, hpend, List.append_nil]⟩
 
 end VaxisModel.Props.C08Sched
